@@ -18,8 +18,8 @@ import (
 func init() {
 	core.Register(&core.Simple{
 		Id: "C04", Lvl: "exploration", Quick: 1500, Thorough: 60000, PerBatch: 750, Width: 32, Timeout: 900,
-		RuleText: "each case builds a generated account database (1-5 accounts, with/without guest, passwords 0..72 arbitrary bytes), logs two observers in, snapshots config dir + file root + chat/transfer tables, then lets a peer send generated handshake bytes, a first transaction with a (login,password) variant and 0-3 appended privileged requests; the reference predicate (valid handshake, account exists with empty login = guest, password equals current password) decides whether the peer must be logged in; in 3 of 7 cases an administrator first renames or deletes an account or changes its password through the protocol, and the peer then presents the formerly valid credentials. distinct = (handshake class, credential class, appended request type, expected outcome); a race-build stress batch lets 60-120 peers fail to log in concurrently while three observers broadcast continuously and a hook delay stretches every registration. non-trivial = every case (each runs the real handleNewConnection)",
-		Case: runCase,
+		RuleText: "each case builds a generated account database (1-5 accounts, with/without guest, passwords 0..72 arbitrary bytes), logs two observers in, snapshots config dir + file root + chat/transfer tables, then lets a peer send generated handshake bytes, a first transaction with a (login,password) variant and 0-3 appended privileged requests; the reference predicate (valid handshake, account exists with empty login = guest, password equals current password; path-like or padded spellings of a login are not that login) decides whether the peer must be logged in; in 3 of 7 cases an administrator first renames or deletes an account or changes its password through the protocol, and the peer then presents the formerly valid credentials. distinct = (handshake class, credential class, appended request type, expected outcome); a race-build stress batch lets 60-120 peers fail to log in concurrently while three observers broadcast continuously and a hook delay stretches every registration. non-trivial = every case (each runs the real handleNewConnection)",
+		Case:     runCase,
 		Extra: func(tier string, seed int64) []core.Batch {
 			n := 12
 			if tier == "thorough" {
@@ -236,7 +236,7 @@ func runCase(c *core.Case) {
 	}
 	srv, err := fixture.New(fixture.Options{Accounts: fx, Agreement: "AGREEMENT-TEXT", Board: "BOARD-TEXT\r",
 		NewsYAML: "Categories:\n  cat:\n    Type: [0, 3]\n    Name: cat\n    Articles: {}\n    SubCats: {}\n",
-		Files: func(root string) { fixture.WriteFile(root+"/victim.txt", "victim-data") }})
+		Files:    func(root string) { fixture.WriteFile(root+"/victim.txt", "victim-data") }})
 	if err != nil {
 		c.Unsure("fixture: %v", err)
 		return
@@ -328,7 +328,7 @@ func runCase(c *core.Case) {
 	if useStale {
 		target = stale[0] // once valid, now renamed away / deleted / superseded
 	}
-	credClass := core.Pick(r, []string{"exact", "exact", "exact", "bitflip", "prefix", "extension", "emptypw", "otherpw", "unknownlogin", "emptylogin", "emptylogin-pw", "caselogin", "nofields", "truncated-frame"})
+	credClass := core.Pick(r, []string{"exact", "exact", "exact", "bitflip", "prefix", "extension", "emptypw", "otherpw", "unknownlogin", "emptylogin", "emptylogin-pw", "caselogin", "aliaslogin", "aliaslogin", "nofields", "truncated-frame"})
 	login, pw := []byte(target.login), []byte(target.pw)
 	switch credClass {
 	case "bitflip":
@@ -362,6 +362,11 @@ func runCase(c *core.Case) {
 		login, pw = nil, []byte("x")
 	case "caselogin":
 		login = []byte(strings.ToUpper(target.login))
+	case "aliaslogin":
+		// spellings that name the same account FILE once cleaned as a path, or the same string once trimmed; none of
+		// them is the account's login
+		l := target.login
+		login = []byte(core.Pick(r, []string{"./" + l, l + "/", "/" + l, "x/../" + l, l + "/.", "../Users/" + l, l + "\x00", l + " ", " " + l, l + ".yaml", "//" + l}))
 	}
 	// reference predicate
 	effLogin := string(login)
